@@ -292,9 +292,14 @@ class LinearPolynomial(BaseDeferred):
         new_coeffs = []
         new_constant_term = self.constant_term
 
+        some_not_ready = False
         for key, value in self.coeffs.items():
+            computed = False
             with try_compute:
                 key = key.wait()
+                computed = True
+            if not computed:
+                some_not_ready = True
             if isinstance(key, BaseDeferred):
                 key = key.get_current_best_estimate()
 
@@ -309,6 +314,12 @@ class LinearPolynomial(BaseDeferred):
         new_value = LinearPolynomial[int](new_coeffs, new_constant_term)
         self.coeffs = new_value.coeffs
         self.constant_term = new_value.constant_term
+
+        if some_not_ready:
+            # While speculating, there is no point in evaluating the same
+            # variable again just to fail the same way (this made the time
+            # exponential in the length of a chain of forward references).
+            not_ready()
 
         return sum(key.wait() * value for key, value in self.coeffs.items()) + self.constant_term
 
